@@ -8,7 +8,7 @@ from props import common
 
 ID = "C04"
 MODULES = ["Series", "SO2", "SE2", "Rn", "SO3", "SE3", "SE23", "Products"]
-LEAN_TARGETS = ["Props.C04", "Props.C04E"]
+LEAN_TARGETS = ["Props.C04", "Props.C04E", "Props.C04H"]
 ANCHORS = ["cyecca/lie/base.py", "cyecca/lie/group_so2.py", "cyecca/lie/group_se2.py", "cyecca/lie/group_rn.py",
            "cyecca/lie/group_so3.py", "cyecca/lie/group_se3.py", "cyecca/lie/group_se23.py",
            "cyecca/lie/direct_product.py"]
@@ -16,6 +16,8 @@ MISSING = [
     "Ad_exp(x) = exp(ad_x): theorem for the SO(3) forms (quaternion, DCM, MRP incl. shadow switch) on the closed-form cells and at zero "
     "(Props/C04E via C02); SE(2), SE(3), SE_2(3) — search only",
     "SO3Euler Ad homomorphism (product goes through from_Matrix) — search only",
+    "SE_2(3) Ad homomorphism / inverse (quaternion and MRP form) and SE(3) MRP inverse ARE theorems (Props/C04H: derived in Lib/AdConj from the "
+    "conjugation law of C04, the matrix homomorphism / inverse of C01 and injectivity of the hat map)",
 ]
 
 
@@ -126,6 +128,21 @@ def check_group(g, rng, n, found, stats, tol=1e-9):
             if not np.max(np.abs(J)) <= 1e-8 * (1 + np.max(np.abs(b)) * np.max(np.abs(z))):
                 report(alg + ".bracket:jacobi", "Jacobi identity fails", {"x": x.tolist(), "y": y.tolist(), "z": z.tolist()}, np.max(np.abs(J)))
 
+
+    # large rotations with every sign pattern of the axis (the exp of SE_2(3) goes matrix -> quaternion -> parameters:
+    # negative scalar parts and negative dominant components select the branches random samples rarely reach)
+    if have_Ad and have_ad and g.algebra in ("so3", "se3", "se23") and g.name != "SO3Euler":
+        for w in common.octant_rotvecs():
+            xs = rng.standard_normal(k) * 0.5
+            xs[k - 3:] = w
+            try:
+                E = np.atleast_1d(expf(xs)); lhs = np.atleast_2d(Ad(E)); rhs = nl.expm(np.atleast_2d(ad(xs)))
+            except Exception:   # noqa: BLE001
+                continue
+            stats["evaluations"] += 1
+            d = np.max(np.abs(lhs - rhs)) if lhs.shape == rhs.shape else 1e9
+            if not d <= 1e-8 * (1 + np.max(np.abs(rhs))):
+                report(g.name + ".Ad:exp:octant", "Ad_exp(x) != expm(ad_x) for a large rotation (axis sign pattern / dominant component sweep)", {"x": xs.tolist()}, d)
 
 def alg_groups():
     out = []
